@@ -9,7 +9,7 @@ CONSTANTS
   Gates <- AllGates
   Cfgs <- AllCfgs
   SubsetsOf <- PartSets
-INVARIANTS TypeOK X02_AckedStored X02_PausedQuiet X02_ActiveServedT X02_DeletedGone X02_SubsSeeLog X02_NoCrash
+INVARIANTS TypeOK X02_AckedStored X02_PausedQuiet X02_ActiveServed X02_DeletedGone X02_SubsSeeLog X02_NoCrash
 PROPERTIES StepsOK
 VIEW MCView
 CHECK_DEADLOCK FALSE
